@@ -209,7 +209,7 @@ theorem paid_step (p : Params) (s : St A Rk) (hj : Paid p s) (ev : Ev) : Paid p 
         by_cases h : a = a'
         · subst h
           simp only [if_true, Nat.mul_add, Nat.mul_one]
-          simp only [List.length_append] at hfull
+          have := List.length_append (as := A.get s.accum a) (bs := [e])
           omega
         · have h' : ¬ a' = a := fun e => h e.symm
           simp only [h, h', if_false, List.length_nil]; omega
